@@ -2,7 +2,7 @@ from decimal import Decimal
 from fractions import Fraction
 
 from rtamt.antlr.parser.stl.StlParserVisitor import StlParserVisitor
-from rtamt.syntax.ast.parser.ltl.parser_visitor import LtlAstParserVisitor
+from rtamt.syntax.ast.parser.ltl.parser_visitor import LtlAstParserVisitor, literal_text
 from rtamt.semantics.interval.interval import Interval
 
 from rtamt.syntax.node.ltl.disjunction import Disjunction
@@ -127,7 +127,7 @@ class StlAstParserVisitor(LtlAstParserVisitor, StlParserVisitor):
 
 
     def visitIntervalTimeLiteral(self, ctx):
-        time_bound = Fraction(Decimal(ctx.literal().getText()))
+        time_bound = Fraction(Decimal(literal_text(ctx.literal().getText())))
         if ctx.unit() is None:
             unit = ''
         else:
